@@ -136,6 +136,8 @@ def run_harness(unit_rs, harness, workdir, default_timeout=600, rss_cap=14 << 30
     timeout = int(harness.get("timeout", default_timeout))
     env = dict(os.environ)
     env["CARGO_NET_OFFLINE"] = "true"
+    # same edition as the repository's crates (workspace edition = "2024")
+    env["RUSTFLAGS"] = (env.get("RUSTFLAGS", "") + " --edition 2024").strip()
     rc, out, wall, reason, peak = run_cmd(cmd, os.path.dirname(unit_rs), timeout, rss_cap, env)
     res = {"harness": name, "cmd": " ".join(cmd), "wall_s": round(wall, 2), "rc": rc,
            "peak_rss_mb": peak >> 20,
